@@ -202,7 +202,7 @@ def run(chk):
             if f.endswith(".case"):
                 lines += open(os.path.join(cdir, f)).read().split("\n")
     ncorpus = len(split_cases(lines))
-    ngen = 0 if chk.replay else (150 if chk.quick else 3000)
+    ngen = 0 if chk.replay else (300 if chk.quick else 3000)
     for c in gen_widen.make_cases(chk.seed, ngen, quick=chk.quick):
         lines += c
     cases = split_cases(lines)
